@@ -73,6 +73,34 @@ theorem facts_order_keys :
     copyOrderDecodes = ["DeserializeOrder(r)", "deserializeOrderTlvData(o)"] ∧
     getOrderDecodes = ["DeserializeOrder(r)", "deserializeOrderTlvData(o)"] := by decide
 
+/-- **One exported mutator = one bbolt write transaction.**  Regenerated from the source: each of the modelled
+`DB` methods contains exactly one `db.Update`, no separate read (`db.View`, `db.Account`, `db.GetOrder` …), and
+before that transaction it evaluates nothing but the modifier-list length checks – in particular it neither reads
+records nor applies modifiers outside the transaction.  This is what `commit db (body db)` assumes: the body sees
+the STORED records (not a struct the caller read earlier) and no other writer can slip in between its read and its
+write. -/
+theorem facts_single_transaction :
+    txShapes = [["DB.StorePendingBatch", "len,len,fmt.Errorf,len,len,fmt.Errorf", "updates=1 reads=0"],
+      ["DB.MarkBatchComplete", "", "updates=1 reads=0"], ["DB.DeletePendingBatch", "", "updates=1 reads=0"],
+      ["DB.UpdateAccount", "", "updates=1 reads=0"], ["DB.UpdateOrder", "", "updates=1 reads=0"],
+      ["DB.UpdateOrders", "len,len,fmt.Errorf", "updates=1 reads=0"], ["DB.AddAccount", "", "updates=1 reads=0"],
+      ["DB.SubmitOrder", "", "updates=1 reads=0"], ["DB.DeleteOrder", "", "updates=1 reads=0"]] := by decide
+
+/-- a direct account update depends only on the key, the modifiers and the STORED record: two databases that
+agree on the stored account produce the same stored account – whatever struct the caller holds -/
+theorem updateAccount_uses_stored_record (db₁ db₂ : DB) (k : Key) (m : List AMod)
+    (h : lookup k db₁.accounts = lookup k db₂.accounts) :
+    lookup k (step db₁ (.updateAccount k m)).1.accounts = lookup k (step db₂ (.updateAccount k m)).1.accounts ∧
+    (step db₁ (.updateAccount k m)).2 = (step db₂ (.updateAccount k m)).2 := by
+  simp only [step, updateAccountTx, updateAccountCore, h]
+  cases lookup k db₂.accounts with
+  | none => simp [commit, h]
+  | some a =>
+    simp only []
+    cases storeA (applyAMods m a) with
+    | error e => simp [commit, h]
+    | ok a' => simp [commit, lookup_upsert]
+
 /-- modifiers never touch the fixed terms of an order -/
 theorem applyOMods_fixed (ms : List OMod) (o : Ord) : (applyOMods ms o).fixed = o.fixed := by
   induction ms generalizing o with
